@@ -18,12 +18,12 @@ import (
 // ---- loopback controller farm: one UDP "controller" port and one TCP port; the reply is a function of the request ----
 
 type Behaviour struct {
-	Delay   time.Duration
-	NoReply bool
-	Strays  int  // junk datagrams (other serial number) sent before the reply, 2 ms apart
-	Flood   bool // junk datagrams every 2 ms for FloodFor
+	Delay    time.Duration
+	NoReply  bool
+	Strays   int  // junk datagrams (other serial number) sent before the reply, 2 ms apart
+	Flood    bool // junk datagrams every 2 ms for FloodFor
 	FloodFor time.Duration
-	Stall   bool // TCP: accept, read, never answer (until the client gives up)
+	Stall    bool // TCP: accept, read, never answer (until the client gives up)
 }
 
 type FarmEvent struct {
